@@ -362,6 +362,15 @@ pub fn run() {
                 let _g = Paused::new();
                 std::fs::create_dir_all(cfg.root.join(f[1])).unwrap();
             }
+            "mkdirt" => {
+                // directory with explicit modification / access time (after its content is planted)
+                let _g = Paused::new();
+                let p = cfg.root.join(f[1]);
+                std::fs::create_dir_all(&p).unwrap();
+                let m: i128 = f[2].parse().unwrap();
+                let ft = filetime::FileTime::from_unix_time((m / 1_000_000_000) as i64, (m % 1_000_000_000) as u32);
+                filetime::set_file_times(&p, ft, ft).unwrap();
+            }
             "plant" => {
                 let _g = Paused::new();
                 let p = cfg.root.join(f[1]);
